@@ -297,4 +297,90 @@ abbrev RIdx := List (Nat × Node)
 def RIdx.candidates (ri : RIdx) (ls : List (Str × Str)) : List Nat :=
   (ri.filter (fun kv => isCandidate kv.2 ls)).map (·.1)
 
+/-! ### labelrestrictionindex, structurally
+
+`LabelRestrictionIndex`: `selectorsByID`, `labelToValueToIDs` (label →
+`valuesSubIndex`) and `unoptimizedIDs`.  Sets of ids are lists without
+duplicates; the clean-up the Go code does (dropping a value's set when it becomes
+empty, nil-ing the maps, deleting an `Empty()` sub-index) is modelled too. -/
+
+/-- `valuesSubIndex`. -/
+structure SubIdx where
+  specific : List (Str × List Nat) := []   -- selsMatchingSpecificValues (nil = [])
+  wildcard : List Nat := []                 -- selsMatchingWildcard (nil = [])
+deriving Repr
+
+def addId (id : Nat) (ids : List Nat) : List Nat := if ids.contains id then ids else id :: ids
+
+/-- `valuesSubIndex.Add`. -/
+def SubIdx.add (s : SubIdx) (v : Str) (id : Nat) : SubIdx :=
+  { s with specific := insert v (addId id ((lookup v s.specific).getD [])) s.specific }
+
+/-- `valuesSubIndex.Remove`. -/
+def SubIdx.remove (s : SubIdx) (v : Str) (id : Nat) : SubIdx :=
+  match lookup v s.specific with
+  | none => s
+  | some ids =>
+    let ids' := ids.filter (· ≠ id)
+    if ids'.isEmpty then { s with specific := erase v s.specific }
+    else { s with specific := insert v ids' s.specific }
+
+/-- `valuesSubIndex.AddWildcard` / `RemoveWildcard`. -/
+def SubIdx.addWildcard (s : SubIdx) (id : Nat) : SubIdx := { s with wildcard := addId id s.wildcard }
+def SubIdx.removeWildcard (s : SubIdx) (id : Nat) : SubIdx := { s with wildcard := s.wildcard.filter (· ≠ id) }
+
+/-- `valuesSubIndex.Empty`. -/
+def SubIdx.isEmpty (s : SubIdx) : Bool := s.specific.isEmpty && s.wildcard.isEmpty
+
+/-- `LabelRestrictionIndex`. -/
+structure RIdxS where
+  sels : List (Nat × Node) := []            -- selectorsByID
+  byLabel : List (Str × SubIdx) := []       -- labelToValueToIDs
+  unopt : List Nat := []                    -- unoptimizedIDs
+deriving Repr
+
+/-- write a sub-index back, deleting it from the map when `Empty()`. -/
+def RIdxS.putSub (st : RIdxS) (l : Str) (sub : SubIdx) : RIdxS :=
+  if sub.isEmpty then { st with byLabel := erase l st.byLabel }
+  else { st with byLabel := insert l sub st.byLabel }
+
+def RIdxS.getSub (st : RIdxS) (l : Str) : SubIdx := (lookup l st.byLabel).getD {}
+
+/-- The un-filing half of `DeleteSelector` (the Go code keeps mutating the same
+`*valuesSubIndex` through the value loop and deletes it from the map as soon as it
+is `Empty()`; removal never makes it non-empty again, so that equals one
+write-back at the end). -/
+def RIdxS.unfile (st : RIdxS) (id : Nat) (n : Node) : RIdxS :=
+  match filing n with
+  | .impossible => st
+  | .values l vs => st.putSub l (vs.foldl (fun sub v => sub.remove v id) (st.getSub l))
+  | .wildcard l => st.putSub l ((st.getSub l).removeWildcard id)
+  | .unoptimized => { st with unopt := st.unopt.filter (· ≠ id) }
+
+/-- `DeleteSelector(id)`. -/
+def RIdxS.deleteSelector (st : RIdxS) (id : Nat) : RIdxS :=
+  match lookup id st.sels with
+  | none => st
+  | some n =>
+    let st1 := st.unfile id n
+    { st1 with sels := erase id st1.sels }
+
+/-- `AddSelector(id, sel)`. -/
+def RIdxS.addSelector (st : RIdxS) (id : Nat) (n : Node) : RIdxS :=
+  let st0 := st.deleteSelector id
+  let st1 := { st0 with sels := insert id n st0.sels }
+  match filing n with
+  | .impossible => st1
+  | .values l vs => st1.putSub l (vs.foldl (fun sub v => sub.add v id) (st1.getSub l))
+  | .wildcard l => st1.putSub l ((st1.getSub l).addWildcard id)
+  | .unoptimized => { st1 with unopt := addId id st1.unopt }
+
+/-- `AllPotentialMatches(item)`: the ids emitted, in emission order (duplicates
+possible, as in Go); `kvs` = the item's effective labels, each key once. -/
+def RIdxS.potentialMatches (st : RIdxS) (kvs : List (Str × Str)) : List Nat :=
+  kvs.flatMap (fun kv =>
+    match lookup kv.1 st.byLabel with
+    | none => []
+    | some sub => sub.wildcard ++ (lookup kv.2 sub.specific).getD []) ++ st.unopt
+
 end CalicoVerif.C07
